@@ -23,7 +23,7 @@ func init() {
 			"oracle: no panic; every diagnostic starts inside the text or at its end and does not end before it starts; analysing the same text again yields the same SET of diagnostics and symbols (map-iteration orders are additionally permuted exhaustively by the instrumented C11 build's map-order seam, see DESIGN 3.4); " +
 			"non-trivial = the text was edited / is a soup; distinct = the text",
 		Assumptions: []string{"set equality of diagnostics is judged on (range, severity, message)"},
-		QuickBudget: 80 * time.Second,
+		QuickBudget: 240 * time.Second,
 		ThoroBudget: 12 * time.Minute,
 		UseJournal:  true,
 		Run:         runC18,
